@@ -543,6 +543,11 @@ static void run_batlate(hctx* h, fcase* fc, long bs, int mode) {
     /* the batches of a file hold all its rows (the loop above is the documented one: it ends at the first status that is not
      * OK; a row group WITHOUT rows in the middle of a file is not the end of the file); not judged when 512 batches were kept */
     int no_repeated = 1; for (int c = 0; c < fc->ncols; c++) if (fc->cols[c].rep == 2) no_repeated = 0;   /* a batch of a REPEATED column counts entries */
+    /* a history that gives the columns of a row group different numbers of rows denotes no table (the caller's obligation) */
+    { long rws[MAXC]; int open_ = 0; memset(rws, 0, sizeof rws);
+      for (int q = 0; q <= fc->nsteps; q++) {
+          if (q == fc->nsteps || fc->steps[q].kind == 1) { if (open_) for (int c = 1; c < fc->ncols; c++) if (rws[c] != rws[0]) no_repeated = 0; memset(rws, 0, sizeof rws); open_ = 0; continue; }
+          open_ = 1; rws[fc->steps[q].col] += fc->steps[q].nrows; } }
     int all_rows = !no_repeated || nb >= 512 || rows_meta < 0 || (rows_b[0] == rows_meta && rows_b[1] == rows_meta);
     fprintf(h->out, " | nb=%ld rows=%lld dg_late=%llu dg_now=%llu p_late_eq_now=%d p_buffer_intact=%d p_all_rows_delivered=%d\n", nb, rows_b[0],
             (unsigned long long)dg[1], (unsigned long long)dg[0], dg[0] == dg[1], memcmp(fb, fb0, fn) == 0, all_rows);
